@@ -187,6 +187,14 @@ def main():
         fixes = subprocess.check_output(['git', '-C', '/repo', 'log', '--format=%h %s', '--grep=^fix:'], text=True).strip().split('\n')
     except Exception:
         fixes = []
+    known = []
+    try:
+        for line in open(os.path.join(ROOT, 'known_findings.txt')):
+            m = re.match(r'known:\s+property=(C\d+)\s+obligation=(.+?)\s+::\s+(.*)$', line.rstrip('\n'))
+            if m:
+                known.append('%s %s -- %s' % (m.group(1), m.group(2), m.group(3)[:220]))
+    except Exception:
+        pass
     man = dict(
         version=1,
         setup_cmd='true',
@@ -206,6 +214,7 @@ def main():
         checks=checks,
         not_applicable=na,
         notes='Genuine defects found by the checks and repaired with "fix:" commits in /repo: ' + '; '.join(fixes) +
+              '. Known findings (genuine, not repaired; the check prints KNOWN-FINDING and exits 0): ' + ('; '.join(known) or 'none') +
               '. See known_findings.txt and DESIGN.md section 6. Exit codes: 0 held, 1 violation, 2 undecided (tool limit / lost anchor), never an alarm.',
     )
     with open(os.path.join(ROOT, 'MANIFEST.json'), 'w') as f:
